@@ -2,14 +2,14 @@
    Encodings (tag first; all identifiers are numbers of the harness's name table):
      tkey : (0 i) positional | (1 k) keyword k | (2) the key of **d (kw.arg is None)
      name : (0 i) identifier | (1 n tkey) __TMP<n>_<key> | (2) self | (3) type | (4) __SUBTLER_TYPE
-            | (5) ___OVLD<id> | (6) ___MAP<id> | (7) ___CODE<k>
+            | (5 id) ___OVLD<id> | (6 id) ___MAP<id> | (7 c) ___CODE<c>
      const: (0 z) int | (1 s) str | (2) None
      expr : (0 const) | (1 name) | (2 e a) attribute | (3 op a b) | (4 isor (e...)) | (5 c a b) a if c else b
             | (6 f ((star e)...) ((kwkey e)...)) call, kwkey = (0) for ** / (1 k)
             | (7 name e) walrus | (8 (name...) b) lambda | (9 elt name it (cond...)) comprehension
             | (10 (e...)) f-string | (11 tag e) eff(tag, e) | (12 (e...)) tuple | (13 e i) subscript
      stmt : (0 e) expression statement | (1 name e) assignment | (2 e) return
-     params: (is_method (tkey...) (posname...) rs cs (alias...)), posname / rs / cs = (0) none | (1 i) *)
+     params: (is_method (tkey...) (posname...) rs cs (alias...) id code), posname / rs / cs = (0) none | (1 i) *)
 (* OPCODE 40 run_rewrite *)
 (* OPCODE 41 run_eval *)
 From Coq Require Import ZArith List Bool Arith.
@@ -26,7 +26,8 @@ Definition name_of (s : sx) : name :=
   match sx_tag s with
   | 0%Z => NUser (sx_nat (sx_arg 0 s))
   | 1%Z => NTmp (sx_nat (sx_arg 0 s)) (tkey_of (sx_arg 1 s))
-  | 2%Z => NSelf | 3%Z => NType | 4%Z => NSubtler | 5%Z => NOvld | 6%Z => NMap | _ => NCode
+  | 2%Z => NSelf | 3%Z => NType | 4%Z => NSubtler | 5%Z => NOvld (sx_nat (sx_arg 0 s)) | 6%Z => NMap (sx_nat (sx_arg 0 s))
+  | _ => NCode (sx_nat (sx_arg 0 s))
   end.
 Definition const_of (s : sx) : const :=
   match sx_tag s with 0%Z => CInt (sx_z (sx_arg 0 s)) | 1%Z => CStr (sx_nat (sx_arg 0 s)) | _ => CNone end.
@@ -82,7 +83,7 @@ Definition rwp_of (s : sx) : rwp :=
                   a_complex := map tkey_of (sx_list (sx_nth 1 s));
                   a_posnames := map onat_of (sx_list (sx_nth 2 s)) |};
      p_rs := onat_of (sx_nth 3 s); p_cs := onat_of (sx_nth 4 s);
-     p_alias := map sx_nat (sx_list (sx_nth 5 s)) |}.
+     p_alias := map sx_nat (sx_list (sx_nth 5 s)); p_id := sx_nat (sx_nth 6 s); p_code := sx_nat (sx_nth 7 s) |}.
 
 (* ---- encoders *)
 Definition Zn (n : nat) : sx := A (Z.of_nat n).
@@ -91,7 +92,8 @@ Definition sx_tkey (k : tkey) : sx :=
 Definition sx_name (x : name) : sx :=
   match x with
   | NUser i => L [A 0%Z; Zn i] | NTmp n k => L [A 1%Z; Zn n; sx_tkey k]
-  | NSelf => L [A 2%Z] | NType => L [A 3%Z] | NSubtler => L [A 4%Z] | NOvld => L [A 5%Z] | NMap => L [A 6%Z] | NCode => L [A 7%Z]
+  | NSelf => L [A 2%Z] | NType => L [A 3%Z] | NSubtler => L [A 4%Z]
+  | NOvld i => L [A 5%Z; Zn i] | NMap i => L [A 6%Z; Zn i] | NCode c => L [A 7%Z; Zn c]
   end.
 Definition sx_const (c : const) : sx :=
   match c with CInt z => L [A 0%Z; A z] | CStr s => L [A 1%Z; Zn s] | CNone => L [A 2%Z] end.
@@ -187,7 +189,7 @@ Definition typeof_std (subtle : bool) (v : sval) : nat :=
   | SSeq 0 _ => 6 | SSeq 1 _ => 7 | SSeq _ _ => 8
   end.
 Definition sx_kpart (k : kpart) : sx :=
-  match k with KC => L [A 0%Z] | KP t => L [A 1%Z; Zn t] | KK o t => L [A 2%Z; sx_onat o; Zn t] end.
+  match k with KC c => L [A 0%Z; Zn c] | KP t => L [A 1%Z; Zn t] | KK o t => L [A 2%Z; sx_onat o; Zn t] end.
 Fixpoint sx_eqb (a b : sx) {struct a} : bool :=
   match a, b with
   | A x, A y => Z.eqb x y
@@ -195,11 +197,11 @@ Fixpoint sx_eqb (a b : sx) {struct a} : bool :=
                    match l, m with [], [] => true | x :: r, y :: t => sx_eqb x y && go r t | _, _ => false end) l m
   | _, _ => false
   end.
-(* table: list of (key-as-sx callable-id); a callable is data 100+id *)
-Definition tbl_std (table : list sx) (key : list kpart) : option sval :=
+(* table: list of (function-id key-as-sx callable-id); a callable is data 100+id *)
+Definition tbl_std (table : list sx) (nid : nat) (key : list kpart) : option sval :=
   let k := L (map sx_kpart key) in
-  match find (fun row => sx_eqb (sx_nth 0 row) k) table with
-  | Some row => Some (SData (100 + sx_nat (sx_nth 1 row)))
+  match find (fun row => Nat.eqb (sx_nat (sx_nth 0 row)) nid && sx_eqb (sx_nth 1 row) k) table with
+  | Some row => Some (SData (100 + sx_nat (sx_nth 2 row)))
   | None => None
   end.
 (* user code: callable data 100+c returns the tuple (c, (args), (kwargs as 2-tuples)) and logs one event;
